@@ -144,12 +144,107 @@ def _sum_over_loop(arg, tsym, trip):
                 if indexed or not (isinstance(idx1, T.Poly) and idx1 == T.sym(tsym, real=True)) or tsym in T.symbols(base):
                     return None
                 indexed = True
-                ap = T.app("sum", base, T.app("kw:axis", T.const(0)))
+                ap = None
+                if isinstance(base, T.Poly) and len(base.t) == 1:
+                    # sum over the samples of c * ones(n) is c * n
+                    (bm, bc), = base.t.items()
+                    ones_ = [(a_, e_) for a_, e_ in bm if a_[0] == "app" and a_[1] == "call:numpy.ones" and e_ == 1 and len(a_[2]) == 1]
+                    if len(ones_) == 1:
+                        n_ = T.dec(ones_[0][0][2][0])
+                        if isinstance(n_, T.Poly):
+                            ap = T.mul(T.Poly({frozenset(x_ for x_ in bm if x_[0] is not ones_[0][0]): bc}), n_)
+                if ap is None:
+                    ap = T.app("sum", base, T.app("kw:axis", T.const(0)))
             elif tsym in T.symbols(ap):
                 return None
             term = T.mul(term, ap)
         out = T.add(out, term if indexed else T.mul(term, trip))
     return out
+
+
+DATA_PARAMS = {
+    "sigpy.mri.rf.sim.abrm": ("rf", "x"),
+    "sigpy.mri.rf.sim.abrm_nd": ("rf", "x", "g"),
+    "sigpy.mri.rf.sim.abrm_hp": ("rf", "gamgdt", "xx"),
+    "sigpy.mri.rf.sim.abrm_ptx": ("b1", "x", "g"),
+    "sigpy.mri.rf.optcont.blochsim": ("rf", "x", "g"),
+}
+
+
+def _q9(run, M):
+    """the waveforms and positions are simulated as given: a simulator that re-lays-out one of its data arguments on the strength of its shape
+    (`if g.shape == (ndim, nt): g = g.T`) simulates a different sequence whenever the shapes coincide (Nt == Ndim), so a whole waveform no longer
+    composes from its parts"""
+    run.rule("Q9", "no simulator rebinds or re-lays-out its data arguments (RF samples, gradient samples, positions) before simulating them")
+    for q, names in DATA_PARAMS.items():
+        f = M.func(q)
+        hits = []
+        for n in ast.walk(f.node):
+            tg = n.targets if isinstance(n, ast.Assign) else ([n.target] if isinstance(n, (ast.AugAssign, ast.AnnAssign)) else [])
+            for t in tg:
+                for x in ast.walk(t):
+                    if isinstance(x, ast.Name) and isinstance(x.ctx, ast.Store) and x.id in names and x.id in f.params:
+                        hits.append(n)
+        run.check(not hits, "Q9", q.split(".")[-1], f.loc(hits[0]) if hits else f.loc(), "data arguments %s are read as given" % (names,),
+                  "%s rebinds its data argument with `%s`: the samples that are simulated are then not the samples that were passed for every input the "
+                  "condition happens to match" % (q.split(".")[-1], unparse(hits[0])[:120] if hits else ""), stmt="Q9:" + q)
+
+
+def _q8(run, M):
+    """abrm(balanced=True) ends with a rewinder that undoes half of the precession accumulated over the pulse: its rotation angle about z is minus one
+    half of the sum over the time loop of the per-sample precession angle x*g[m] -- whatever the number of samples (odd or even)"""
+    run.rule("Q8", "abrm: the balanced rewinder's precession angle equals minus one half of the sum over the time loop of the per-sample angle x*g[m]")
+    q = "sigpy.mri.rf.sim.abrm"
+    f = M.func(q)
+    cfg = SIMS[q]
+    body = f.body
+    withs = [s_ for s_ in body if isinstance(s_, ast.With)]
+    if withs:
+        body = withs[-1].body
+    loops = [i for i, s_ in enumerate(body) if isinstance(s_, ast.For)]
+    if not loops:
+        raise Unrecognised("%s has no time loop" % q, f.node)
+    pre, loop, post = body[:loops[0]], body[loops[0]], body[loops[0] + 1:]
+    real = set(cfg["real"])
+    ps = [o for o in SimVN(M, f, real=real).run(pre, State()) if o.status == "live"][0]
+    tname = loop.target.id if isinstance(loop.target, ast.Name) else "_"
+    it = SimVN(M, f, real=real).ev(loop.iter, State(ps.env))
+    ia = it.single_atom() if isinstance(it, T.Poly) else None
+    trip = T.dec(ia[2][0]) if ia is not None and ia[0] == "app" and ia[1] in ("call:numpy.arange", "range") and len(ia[2]) == 1 else None
+    # the per-sample precession angle: the value bound to the first local of the loop body that is the product of the positions and a gradient sample
+    env = dict(ps.env)
+    env[tname] = T.sym("t", real=True)
+    om_t = None
+    st_ = State(env)
+    for s_ in loop.body:
+        if isinstance(s_, ast.Assign) and len(s_.targets) == 1 and isinstance(s_.targets[0], ast.Name):
+            v_ = SimVN(M, f, real=real).ev(s_.value, st_)
+            if isinstance(v_, T.Poly) and "t" in T.symbols(v_) and "x" in T.symbols(v_) and "getitem(rf" not in T.show(v_, 2000):
+                om_t = v_
+                break
+            st_.env[s_.targets[0].id] = v_
+    # the rewinder's angle: the first such product bound in the `if balanced:` block after the loop
+    om_r = None
+    for s_ in post:
+        if isinstance(s_, ast.If):
+            st2 = State(dict(ps.env))
+            for b_ in s_.body:
+                if isinstance(b_, ast.Assign) and len(b_.targets) == 1 and isinstance(b_.targets[0], ast.Name):
+                    v_ = SimVN(M, f, real=real).ev(b_.value, st2)
+                    st2.env[b_.targets[0].id] = v_
+                    if om_r is None and isinstance(v_, T.Poly) and "x" in T.symbols(v_):
+                        om_r = v_
+    ok = False
+    why = "abrm's time loop or rewinder block has a form this rule cannot read"
+    if om_t is not None and om_r is not None and trip is not None:
+        total = _sum_over_loop(om_t, "t", trip)
+        if total is not None:
+            want = T.scale(total, Fraction(-1, 2))
+            ok = T.eq(om_r, want)
+            why = "abrm's balanced rewinder precesses by %s; minus one half of the accumulated per-sample angle %s over %s samples is %s: the rewinder no longer " \
+                  "undoes half of the pulse's precession (for some pulse lengths), so balanced simulations of back-to-back pulses do not compose" % (
+                      T.show(om_r, 160), T.show(om_t, 100), T.show(trip, 60), T.show(want, 160))
+    run.check(ok, "Q8", "abrm rewinder", f.loc(), "rewinder angle = -1/2 * sum of per-sample precession angles", why, stmt="Q8")
 
 
 def _q7(run, M):
@@ -341,6 +436,8 @@ def check(run, M, tier):
                   "%s returns `%s`, whose first two entries are not the simulated Cayley-Klein pair (%s, %s)" % (q, shown, names[0], names[1]), stmt="Q2:ret:" + q)
     run.floor("Q1", 6, n_sites, "state-update sites")
     _q7(run, M)
+    _q8(run, M)
+    _q9(run, M)
     # ---- Q4 ab2rf
     f = M.func("sigpy.mri.rf.slr.ab2rf")
     loop = [s for s in f.body if isinstance(s, ast.For)]
